@@ -18,4 +18,4 @@ def run(ctx):
     if ctx.replay:
         bad = conc_replay(ctx, ctx.replay)
         return 1 if bad else 0
-    return conc_check(ctx, MODULE, THEOREMS, ['C07'], "concurrent history", ASSUME, pre_finish=stress_stage)
+    return conc_check(ctx, MODULE, THEOREMS, ['C07'], "concurrent history", ASSUME, extra_quick=('cases=150', 'exhaust=4', 'cap=300'), extra_thorough=('cases=4000', 'exhaust=60', 'cap=3000'), pre_finish=stress_stage)
